@@ -163,6 +163,23 @@ fn c03c_accept_lzma_2mib() { accepts(0x12, 1 << 21, None, true) }
 #[kani::stub(std::fmt::format, vio::fmt_stub)]
 #[kani::stub(std::time::Instant::now, instant_stub)]
 fn c03c_accept_sparse_2mib() { accepts(0x20, 1 << 21, Some(128), true) }
+/// sparse, exact feasibility: the stream is a 4-byte length header plus control bytes, and one control byte stands for
+/// at most 130 output bytes (a zero run of (b & 0x7F) + 3), so d <= 130 * (c - 4)
+#[kani::proof]
+#[kani::stub(std::fmt::format, vio::fmt_stub)]
+#[kani::stub(std::time::Instant::now, instant_stub)]
+fn c03c_accept_sparse_exact_2mib() {
+    let c: u64 = kani::any();
+    let d: u64 = kani::any();
+    kani::assume(c >= 5 && d >= 3 && d <= (1 << 21));
+    kani::assume(c + 1 < d && d <= (c - 4) * 130);
+    let tracker = SessionTracker::new();
+    let limits = SecurityLimits::default();
+    let r = validate_decompression_operation(c, d, 0x20, None, &tracker, &limits);
+    kani::cover!(d == (1 << 21) && d / c >= 129);
+    assert!(r.is_ok(), "size pair the sparse compressor can emit is rejected by the default limits");
+    std::mem::forget((r, tracker, limits));
+}
 #[kani::proof]
 #[kani::stub(std::fmt::format, vio::fmt_stub)]
 #[kani::stub(std::time::Instant::now, instant_stub)]
